@@ -616,6 +616,7 @@ func main() {
 		r.HarnessError("vacuous: %d of %d tuples evaluated", r.Evals.Load(), totalTuples)
 	}
 	r.States.Store(r.Evals.Load())
+	r.Extra("wa_worker_cpu_seconds", float64(hrun.TotalWaCpuMs.Load())/1000)
 	r.Finish()
 }
 
